@@ -590,19 +590,22 @@ def merge(a, b):
 
 
 def run_property(ctx, pid, spec, replay, BUILD, ROOT, REPO, GOENV):
+    """Runs every run of the property.  With a replay file: a parser-layer replay re-runs exactly the recorded
+    query; every other layer re-runs the generation it came from (the check was started with the recorded seed
+    and tier, generation is deterministic in the seed) and reports only the recorded case."""
     res = {"failing": [], "diffs": [], "coverage": {}}
-    replay_arg = None
-    replay_kind = None
-    if replay:
-        r = json.load(open(replay))
-        replay_kind = r.get("layer", "parse")
-        replay_arg = r.get("query_hex") or r.get("case")
+    rec = json.load(open(replay)) if replay else None
+    parse_replay = rec is not None and rec.get("layer", "parse") == "parse" and rec.get("query_hex") and "no_longer_checks" not in rec
     for idx, run in enumerate(spec["runs"]):
-        if replay and run["kind"] != replay_kind:
-            continue
-        res = merge(res, RUNNERS[run["kind"]](ctx, pid, run, idx, replay_arg, BUILD, ROOT))
-        if replay:
+        if parse_replay:
+            if run["kind"] != "parse":
+                continue
+            res = merge(res, RUNNERS["parse"](ctx, pid, run, idx, rec["query_hex"], BUILD, ROOT))
             break
+        res = merge(res, RUNNERS[run["kind"]](ctx, pid, run, idx, None, BUILD, ROOT))
+    if rec is not None and not parse_replay and "no_longer_checks" not in rec:
+        key = lambda f: (f.get("oracle"), f.get("query_hex") or f.get("case") or f.get("scenario"))
+        res["failing"] = [f for f in res["failing"] if key(f) == key(rec)]
     return res
 
 
